@@ -490,15 +490,18 @@ class AddPeerFullBucket:
 @proof("C11", "add_peer.closer-is-admitted")
 class AddPeerCloser:
     """a contact closer than the K-th closest known contact is always admitted: the full bucket is split instead of pinging"""
-    inputs = dict(r1=DIST, a=DIST, b=DIST, c=DIST, dn=DIST)
+    inputs = dict(r1=DIST, a=DIST, b=DIST, c=DIST, dn=DIST, late=TBool())
 
     def requires(r1, a, b, c, dn):
-        # newcomer in the lower half of the full high bucket, both residents in its upper half (so one split makes room)
+        # newcomer in the lower half of the full high bucket, the farthest resident in its upper half, the other one anywhere below
+        # it (so one split makes room); the newcomer is closer than the farthest = K-th closest known contact
         mid = TOP - (TOP - r1) // 2
-        return 0 < r1 < TOP - 4 and 0 < a < r1 and r1 <= dn < mid and mid <= b < c < TOP
+        return 0 < r1 < TOP - 4 and 0 < a < r1 and r1 <= dn < mid and mid <= c < TOP and r1 <= b < c and b != dn
 
-    async def run(r1, a, b, c, dn):
-        t = table_of([0, r1, TOP], [[mkpeer(a, 1)], [mkpeer(b, 2), mkpeer(c, 3)]], capacities=[8, 2])
+    async def run(r1, a, b, c, dn, late):
+        # inside a bucket contacts stand in the order they were learned, not in distance order: `late` = the nearer one came last
+        residents = [mkpeer(c, 3), mkpeer(b, 2)] if late else [mkpeer(b, 2), mkpeer(c, 3)]
+        t = table_of([0, r1, TOP], [[mkpeer(a, 1)], residents], capacities=[8, 2])
         ok = await t.add_peer(mkpeer(dn, 4), never_probe)
         where = located(t, dn)
         return ok, wf(t), members(t), where, shape(t)
@@ -510,8 +513,10 @@ class AddPeerCloser:
     def samples():
         r1 = 2 ** 383
         mid = TOP - (TOP - r1) // 2
-        for dn in (r1, r1 + 1, mid - 1):
-            yield dict(r1=r1, a=3, b=mid, c=TOP - 1, dn=dn)
+        for late in (False, True):
+            for dn in (r1, r1 + 1, mid - 1):
+                yield dict(r1=r1, a=3, b=mid, c=TOP - 1, dn=dn, late=late)
+                yield dict(r1=r1, a=3, b=r1 + 5, c=TOP - 1, dn=dn + 9, late=late)       # the other resident nearer than the newcomer
 
 
 @proof("C11", "add_peer.table-changes-during-probe")
